@@ -61,6 +61,37 @@ def call_compatible(call, s, skip_first=0):
     return probs
 
 
+def rpc_params_forwarded_unchanged(ctx, rule):
+    """An RPC server method hands the values it received to the engine /
+    executor as they are: it does not re-bind a parameter (e.g. turning a
+    missing `reset` into True changes what the caller asked for)."""
+    prog = ctx.prog
+    n = 0
+    for cls in ('mistral.engine.engine_server.EngineServer',
+                'mistral.executors.executor_server.ExecutorServer'):
+        for m in prog.methods_of(cls):
+            if m.name.startswith('_') or m.name in ('start', 'stop'):
+                continue
+            ps = set(m.params) - {'self'}
+            n += 1
+            bad = []
+            for x in own_nodes(m.node):
+                if isinstance(x, (ast.Assign, ast.AugAssign, ast.AnnAssign)):
+                    tg = x.targets if isinstance(x, ast.Assign) \
+                        else [x.target]
+                    for t in tg:
+                        if isinstance(t, ast.Name) and t.id in ps:
+                            bad.append(norm(x))
+            rule.check(not bad, ctx.construct(m, extra='parameters forwarded '
+                                              'as received'),
+                       'the RPC server method re-binds a parameter (%s): '
+                       'the engine is asked something else than the client '
+                       'sent' % bad[:1], ctx.loc(m))
+    if n < 10:
+        raise AnalysisError('rpc servers: only %d endpoint methods' % n)
+    return n
+
+
 def rpc_surface(ctx, rule):
     prog, cg = ctx.prog, ctx.cg
     if len(cg.rpc_sites) < 12:
@@ -452,6 +483,7 @@ def run(ctx):
                   'agree', 'AGREE')
     r5.floor(14)
     rpc_surface(ctx, r5)
+    rpc_params_forwarded_unchanged(ctx, r5)
 
     # ---- R6 every delivery consults the delivered execution ------------------
     r6 = ctx.rule('R6', 'task accounting is guarded by the delivered '
